@@ -123,13 +123,14 @@ Inductive callform := KIdent | KDot | KBracket | KOther.
 
 Record fixes := mkFixes {
   fx_site : bool;   (* record a call site for every callee form *)
+  fx_implicit : bool; (* record a call site when a function is entered without a call expression *)
   fx_at   : bool;   (* every raise site of a script frame passes its position *)
   fx_nofile : bool; (* functions made by the Function constructor carry their source *)
   fx_term : bool;   (* CR, U+2028, U+2029 are line terminators for run-time positions *)
   fx_char : bool    (* columns count characters, not bytes *)
 }.
-Definition nofix := mkFixes false false false false false.
-Definition allfix := mkFixes true true true true true.
+Definition nofix := mkFixes false false false false false false.
+Definition allfix := mkFixes true true true true true true.
 
 (* cmplEvaluateNodeCallExpression / NewExpression: atv *)
 Definition record_site (fx : fixes) (k : callform) (idx : Z) : Z :=
@@ -142,6 +143,10 @@ Inductive event :=
 | EvCall (k : callform) (idx line col : Z)   (* a call or new expression evaluated in this frame;
                                                 idx = file.Idx of the callee's first token,
                                                 (line, col) = where the generator put that token *)
+| EvImplicit (idx line col : Z)              (* a script function entered without a call expression of
+                                                this frame: getter, setter, valueOf/toString of a
+                                                conversion; nothing is stored in frame.offset
+                                                (idx, line, col) = where the triggering expression starts *)
 | EvEvalEnter (file : Z)                     (* direct eval: cmplEvaluateNodeProgram(node, true) *)
 | EvEvalLeave.
 
@@ -169,6 +174,7 @@ Definition ev_step (fx : fixes) (st : frame * list Z) (e : event) : frame * list
   let '(fr, stk) := st in
   match e with
   | EvCall k idx _ _ => (set_offset fr (record_site fx k idx), stk)
+  | EvImplicit idx _ _ => ((if fx_implicit fx then set_offset fr idx else fr), stk)
   | EvEvalEnter f => (set_file fr f, f_file fr :: stk)
   | EvEvalLeave =>
       match stk with
